@@ -16,6 +16,11 @@
  *   Q <peer>            from now on the peer acknowledges nothing (Confirmable messages to it stay queued until given up)
  *   N                   the observed resource changes (notifications to all observers)
  *   K <peer>            the peer answers everything it got so far with RST (observer / queued message cancelled)
+ *   T <k>               stream peer k (0..7, known to the trace as peer 56+k) connects over TCP (a real loopback connection, accepted through the
+ *                       library's own accept path) and sends its CSM
+ *   t <k> <r|a|o> [hold] that peer sends GET /r, /a (parked as an async entry) or /o (Observe=0) on its connection
+ *   D <k>               that peer closes its connection (the library's next read reports the reset)
+ *                       (A/a/U/S/N/I/F/E apply to stream peers through their peer number 56+k)
  *   I <ms>              run the I/O loop for <ms> of virtual time
  *   F                   free the context now (the application first releases what it still holds)
  *   E                   end of the case (frees the context if that has not happened)
@@ -86,13 +91,71 @@ void __wrap_coap_free_type(coap_memory_tag_t type, void *p) {
 static int sid_of(coap_session_t *s) { int i = led_find(s); return i < 0 ? -1 : led[i].sid; }
 static int sess_id_hook(coap_session_t *s) { int k = sid_of(s); return k < 0 ? 0 : k; }
 
+/* ---- stream peers: real TCP connections to a second endpoint, their bytes scripted through the wrapped coap_socket_read() ---- */
+#include <sys/epoll.h>
+#include <sys/socket.h>
+#include <unistd.h>
+#include <errno.h>
+#define NTCP 8
+#define TCP_PEER0 56
+extern int (*sim_extra_events)(int epfd, struct epoll_event *events, int max);
+static coap_endpoint_t *tcp_ep;
+static struct { coap_session_t *s; int fd; uint8_t in[512]; size_t nin; int closing, connecting; } tp[NTCP];
+static int tcp_accept_pending;
+static int tcp_of_sock(coap_socket_t *sock) { int k; for (k = 0; k < NTCP; k++) if (tp[k].s && &tp[k].s->sock == sock) return k; return -1; }
+static int tcp_of_session(coap_session_t *s) { int k; for (k = 0; k < NTCP; k++) if (tp[k].s == s) return k; return -1; }
+static int sid_of(coap_session_t *s);
+ssize_t __wrap_coap_socket_read(coap_socket_t *sock, uint8_t *data, size_t data_len) {
+  int k = tcp_of_sock(sock);
+  size_t n;
+  if (k < 0 || (tp[k].nin == 0 && !tp[k].closing)) { sock->flags &= ~COAP_SOCKET_CAN_READ; return 0; }
+  if (tp[k].nin == 0) {                      /* the peer has gone */
+    sock->flags &= ~COAP_SOCKET_CAN_READ;
+    tp[k].closing = 0;
+    errno = ECONNRESET;
+    return -1;
+  }
+  n = tp[k].nin < data_len ? tp[k].nin : data_len;
+  memcpy(data, tp[k].in, n);
+  memmove(tp[k].in, tp[k].in + n, tp[k].nin - n);
+  tp[k].nin -= n;
+  if (n < data_len) sock->flags &= ~COAP_SOCKET_CAN_READ;
+  fprintf(sim_trace, "{\"e\":\"Rx\",\"t\":%llu,\"sport\":%d,\"ty\":1,\"mid\":0,\"stream\":1}\n", (unsigned long long)sim_now, 20000 + TCP_PEER0 + k);
+  return (ssize_t)n;
+}
+ssize_t __wrap_coap_socket_write(coap_socket_t *sock, const uint8_t *data, size_t data_len) {
+  int k = tcp_of_sock(sock);
+  (void)data;
+  sock->flags &= ~(COAP_SOCKET_WANT_WRITE | COAP_SOCKET_CAN_WRITE);
+  if (k >= 0 && sim_trace)
+    fprintf(sim_trace, "{\"e\":\"Tx\",\"t\":%llu,\"s\":%d,\"ty\":1,\"mid\":0,\"stream\":1}\n", (unsigned long long)sim_now, sid_of(tp[k].s));
+  return (ssize_t)data_len;
+}
+static int extra_events(int epfd, struct epoll_event *events, int max) {
+  int n = 0, k;
+  if (!ctx || epfd != ctx->epfd) return 0;
+  if (tcp_accept_pending && tcp_ep && n < max) { events[n].events = EPOLLIN; events[n].data.ptr = &tcp_ep->sock; n++; return n; }
+  for (k = 0; k < NTCP && n < max; k++)
+    if (tp[k].s && (tp[k].nin || tp[k].closing) && (tp[k].s->sock.flags & COAP_SOCKET_WANT_READ)) { events[n].events = EPOLLIN; events[n].data.ptr = &tp[k].s->sock; n++; }
+  return n;
+}
+
 /* ---- the application -------------------------------------------------------------------------------------------- */
-static int peer_of(const coap_address_t *a) {
+static int peer_of_addr(const coap_address_t *a) {
   int p = (int)sim_port(a) - 20000;
   return (p >= 0 && p < NPEER) ? p : -1;
 }
+static int peer_of_session(coap_session_t *s) {
+  int k;
+  if (s->proto == COAP_PROTO_UDP) return peer_of_addr(coap_session_get_addr_remote(s));
+  k = tcp_of_session(s);
+  if (k >= 0) return TCP_PEER0 + k;
+  for (k = 0; k < NTCP; k++) if (tp[k].connecting) return TCP_PEER0 + k;     /* the NEW event of the connection being accepted */
+  return -1;
+}
+#define peer_of(a) peer_of_addr(a)
 static void h_req(coap_resource_t *r, coap_session_t *s, const coap_pdu_t *req, const coap_string_t *q, coap_pdu_t *resp) {
-  int p = peer_of(coap_session_get_addr_remote(s));
+  int p = peer_of_session(s);
   (void)q;
   fprintf(sim_trace, "{\"e\":\"Req\",\"t\":%llu,\"peer\":%d,\"s\":%d,\"res\":\"%s\"}\n", (unsigned long long)sim_now, p, sid_of(s),
           r == res_r ? "r" : r == res_o ? "o" : "a");
@@ -122,12 +185,16 @@ static void h_req(coap_resource_t *r, coap_session_t *s, const coap_pdu_t *req, 
 static int in_teardown;
 static void log_observers(void);
 static int h_event(coap_session_t *s, const coap_event_t ev) {
-  if (ev == COAP_EVENT_SERVER_SESSION_NEW)
-    fprintf(sim_trace, "{\"e\":\"Ev\",\"k\":\"new\",\"s\":%d,\"t\":%llu,\"peer\":%d}\n", sid_of(s), (unsigned long long)sim_now,
-            peer_of(coap_session_get_addr_remote(s)));
-  else if (ev == COAP_EVENT_SERVER_SESSION_DEL) {
+  if (ev == COAP_EVENT_SERVER_SESSION_NEW) {
+    int k;
+    fprintf(sim_trace, "{\"e\":\"Ev\",\"k\":\"new\",\"s\":%d,\"t\":%llu,\"peer\":%d}\n", sid_of(s), (unsigned long long)sim_now, peer_of_session(s));
+    if (s->proto != COAP_PROTO_UDP)
+      for (k = 0; k < NTCP; k++) if (tp[k].connecting) { tp[k].s = s; tp[k].connecting = 0; tcp_accept_pending = 0; }
+  } else if (ev == COAP_EVENT_SERVER_SESSION_DEL) {
+    int k = tcp_of_session(s);
     if (!in_teardown) log_observers();          /* who holds what right now, as libcoap sees it */
     fprintf(sim_trace, "{\"e\":\"Ev\",\"k\":\"del\",\"s\":%d,\"t\":%llu,\"ref\":%u}\n", sid_of(s), (unsigned long long)sim_now, s->ref);
+    if (k >= 0 && s->ref == 0) tp[k].s = NULL;   /* the object goes away with this event */
   }
   return 0;
 }
@@ -187,8 +254,17 @@ static void free_ctx(void) {
   in_teardown = 1;
   coap_free_context(ctx);
   in_teardown = 0;
-  ctx = NULL; res_r = res_o = res_a = NULL;
+  ctx = NULL; res_r = res_o = res_a = NULL; tcp_ep = NULL;
   memset(asyncs, 0, sizeof(asyncs));
+  {
+    int k;
+    struct linger lg = {1, 0};
+    for (k = 0; k < NTCP; k++) {
+      if (tp[k].fd > 0) { setsockopt(tp[k].fd, SOL_SOCKET, SO_LINGER, &lg, sizeof(lg)); close(tp[k].fd); }
+      memset(&tp[k], 0, sizeof(tp[k]));
+    }
+    tcp_accept_pending = 0;
+  }
   {
     int i, live_s = 0;
     for (i = 0; i < nled; i++) if (led[i].type == COAP_SESSION) live_s++;
@@ -219,6 +295,7 @@ int main(int argc, char **argv) {
   coap_set_prng(prng);
   sim_hooks.on_peer_rx = on_peer_rx;
   sim_hooks.sess_id = sess_id_hook;
+  sim_extra_events = extra_events;
   sim_trace_io = 0;
   for (p = 0; p < NPEER; p++) sim_addr(&peer_addr[p], "127.0.0.1", (uint16_t)(20000 + p));
   while (fgets(line, sizeof(line), in)) {
@@ -246,6 +323,12 @@ int main(int argc, char **argv) {
       sim_addr(&srv_addr, "127.0.0.1", 0);
       ep = coap_new_endpoint(ctx, &srv_addr, COAP_PROTO_UDP);
       srv_addr = ep->bind_addr;
+      if (strstr(line, "tcp=1")) {
+        coap_address_t ta;
+        int tries;
+        sim_addr(&ta, "127.0.0.1", 0);
+        for (tries = 0; !(tcp_ep = coap_new_endpoint(ctx, &ta, COAP_PROTO_TCP)) && tries < 60; tries++) sleep(1);
+      }
       res_r = coap_resource_init(coap_make_str_const("r"), 0);
       coap_register_request_handler(res_r, COAP_REQUEST_GET, h_req);
       coap_add_resource(ctx, res_r);
@@ -316,6 +399,52 @@ int main(int argc, char **argv) {
       sim_inject(&peer_addr[p], &srv_addr, r, 4, 0, -1);
       sim_run(sim_now + 5);
       log_observers();
+    } else if (c == 'T') {
+      int k = p & 7;
+      if (tcp_ep && !tp[k].s && !tp[k].fd) {
+        struct sockaddr_in sa;
+        memset(&sa, 0, sizeof(sa));
+        sa.sin_family = AF_INET;
+        sa.sin_port = tcp_ep->bind_addr.addr.sin.sin_port;
+        sa.sin_addr.s_addr = htonl(INADDR_LOOPBACK);
+        tp[k].fd = socket(AF_INET, SOCK_STREAM, 0);
+        if (connect(tp[k].fd, (struct sockaddr *)&sa, sizeof(sa)) == 0) {
+          fprintf(sim_trace, "{\"e\":\"Connect\",\"t\":%llu,\"peer\":%d}\n", (unsigned long long)sim_now, TCP_PEER0 + k);
+          tp[k].connecting = 1;
+          tcp_accept_pending = 1;
+          sim_run(sim_now + 2);                     /* accept, NEW event, the server's CSM */
+          tcp_accept_pending = 0; tp[k].connecting = 0;
+          if (tp[k].s) { tp[k].in[0] = 0x00; tp[k].in[1] = 0xe1; tp[k].nin = 2; sim_run(sim_now + 2); }      /* the peer's CSM */
+        }
+      }
+    } else if (c == 't') {
+      int k = p & 7;
+      char *q = line + 1;
+      while (*q == ' ') q++;
+      while (*q && *q != ' ') q++;
+      while (*q == ' ') q++;
+      if (tp[k].s && *q && tp[k].nin + 8 < sizeof(tp[k].in)) {
+        uint8_t *b = tp[k].in + tp[k].nin;
+        size_t n = 0;
+        int obs = *q == 'o';
+        b[n++] = (uint8_t)(((obs ? 3 : 2) << 4) | 1); b[n++] = 1; b[n++] = (uint8_t)(0x10 + TCP_PEER0 + k);
+        if (obs) { b[n++] = 0x60; b[n++] = 0x51; } else b[n++] = 0xb1;
+        b[n++] = (uint8_t)*q;
+        tp[k].nin += n;
+        hold_next[TCP_PEER0 + k] = hold;
+        fprintf(sim_trace, "{\"e\":\"Inject\",\"t\":%llu,\"peer\":%d,\"path\":\"%c\",\"con\":0,\"obs\":%d}\n", (unsigned long long)sim_now, TCP_PEER0 + k, *q, obs ? 0 : -1);
+        sim_run(sim_now + 5);
+        hold_next[TCP_PEER0 + k] = 0;
+        if (obs) log_observers();
+      }
+    } else if (c == 'D') {
+      int k = p & 7;
+      if (tp[k].s) {
+        fprintf(sim_trace, "{\"e\":\"Disc\",\"t\":%llu,\"peer\":%d,\"s\":%d}\n", (unsigned long long)sim_now, TCP_PEER0 + k, sid_of(tp[k].s));
+        tp[k].closing = 1;
+        sim_run(sim_now + 5);
+        log_observers();
+      }
     } else if (c == 'I') {
       sim_run(sim_now + (uint64_t)atol(line + 1));
       fprintf(sim_trace, "{\"e\":\"IoDone\",\"t\":%llu}\n", (unsigned long long)sim_now);
